@@ -138,6 +138,8 @@ Qed.
 (* ------------------------------------------------------------------------------------------- *)
 (* ESMF                                                                                          *)
 
+Definition c01_ex_faces_def : list (list Z) := [[0; 1; 2; 3]; [1; 4; 2]].
+
 Definition c01_BOUND : Z := 4611686018427387904.     (* 2^62: index magnitudes stay far from overflow *)
 
 Lemma c01_esmf_row_ok n s f junk :
@@ -1182,6 +1184,170 @@ Proof.
     + rewrite app_length, map_length, repeat_length. rewrite Forall_forall in H. destruct (H f Hf). lia.
     + exists (map NI f), (w - length f)%nat. split; [reflexivity|exact E2].
 Qed.
+
+(* ------------------------------------------------------------------------------------------- *)
+(* round trips with boolean well-formedness: decode (encode_dialect faces) presents exactly faces  *)
+
+Lemma c01_wf_facesb_ok n w faces : c01_wf_facesb n w faces = true -> c01_wf_faces n w faces.
+Proof.
+  unfold c01_wf_facesb, c01_wf_faces. rewrite forallb_forall, Forall_forall. intros H f Hf.
+  specialize (H f Hf). unfold c01_wf_faceb in H. apply andb_true_iff in H. destruct H as [H1 H2].
+  split; [|apply Nat.leb_le; exact H2].
+  unfold c01_wf_face. rewrite Forall_forall. rewrite forallb_forall in H1. intros x Hx. specialize (H1 x Hx). lia.
+Qed.
+
+Lemma c01_faces_of_std n w faces : c01_wf_faces n w faces -> c01_faces_of (c01_std w faces) = faces.
+Proof.
+  intros H. unfold c01_faces_of, c01_std. rewrite map_map.
+  transitivity (map (fun f : list Z => f) faces); [|apply map_id].
+  apply map_ext_in. intros f Hf. unfold c01_wf_faces in H. rewrite Forall_forall in H.
+  destruct (H f Hf) as [Hw _]. eapply c01_pad_corners; exact Hw.
+Qed.
+
+Definition c01_ent_eqb (a b : c01_ent) : bool :=
+  match a, b with EInt x, EInt y => x =? y | ENan, ENan => true | _, _ => false end.
+
+Lemma c01_ent_eqb_eq a b : c01_ent_eqb a b = true -> a = b.
+Proof. destruct a, b; simpl; intros H; try discriminate; [f_equal; lia|reflexivity]. Qed.
+
+Definition c01_fill_okb (s n : Z) (fe : c01_ent) : bool :=
+  match fe with EInt v => negb ((s <=? v) && (v <? s + n)) | ENan => true end.
+
+Lemma c01_fill_okb_ok s n fe : c01_fill_okb s n fe = true -> c01_fill_ok s n fe.
+Proof. destruct fe; simpl; [lia|trivial]. Qed.
+
+(* every UGRID dialect the reader decodes correctly, as one boolean: base s >= 0, the padding entry fe is the
+   declared _FillValue (or NaN in float storage when none is declared) and is no valid index, and the
+   start_index attribute is s — or it is absent, s = 0 and node 0 is referenced by some face *)
+Definition c01_ugrid_dialect_okb (d : c01_udial) (s : Z) (fe : c01_ent) (n : Z) (faces : list (list Z)) : bool :=
+  (0 <=? s) && (n + s <=? c01_BOUND) && c01_fill_okb s n fe &&
+  match ud_fill d with Some f => c01_ent_eqb f fe | None => c01_is_nan fe end &&
+  match ud_start d with
+  | Some s' => s' =? s
+  | None => (s =? 0) && existsb (existsb (Z.eqb 0)) faces
+  end.
+
+Theorem c01_ugrid_roundtrip d s fe n w faces :
+  c01_ugrid_dialect_okb d s fe n faces = true -> c01_wf_facesb n w faces = true ->
+  c01_faces_of (c01_ugrid_conn d (c01_encode s fe w faces)) = faces.
+Proof.
+  intros Hd Hw. apply c01_wf_facesb_ok in Hw. unfold c01_ugrid_dialect_okb in Hd.
+  repeat (apply andb_true_iff in Hd; destruct Hd as [Hd ?]).
+  assert (Hfill : ud_fill d = Some fe \/ (ud_fill d = None /\ fe = ENan)).
+  { destruct (ud_fill d) as [f|]; [left; f_equal; apply c01_ent_eqb_eq; assumption|right; split; [reflexivity|]].
+    destruct fe; [discriminate|reflexivity]. }
+  assert (Hok : c01_fill_ok s n fe) by (apply c01_fill_okb_ok; assumption).
+  transitivity (c01_faces_of (c01_std w faces)); [|apply (c01_faces_of_std n); exact Hw]. f_equal.
+  destruct (ud_start d) as [s'|] eqn:Es.
+  - assert (s' = s) by lia. subst s'. apply (c01_ugrid_faces d s fe n); try assumption; lia.
+  - apply andb_true_iff in H. destruct H as [Hs0 Hex]. assert (s = 0) by lia. subst s.
+    apply (c01_ugrid_start_absent d fe n); try assumption; try lia.
+    apply existsb_exists in Hex. destruct Hex as (f & Hf & Hex). apply existsb_exists in Hex.
+    destruct Hex as (x & Hx & Ex). exists f. split; [exact Hf|]. assert (x = 0) by lia. subst x. exact Hx.
+Qed.
+
+(* explicit topology: with a fill value (any dtype), or without one when every row is full *)
+Theorem c01_topo_roundtrip std s fe n w faces (with_fill : bool) :
+  (0 <=? s) && (n + s <=? c01_BOUND) && c01_fill_okb s n fe = true ->
+  c01_wf_facesb n w faces = true ->
+  (with_fill = false -> forallb (fun f => (length f =? w)%nat) faces = true) ->
+  c01_faces_of (fst (c01_topo_conn std (if with_fill then Some fe else None) s (c01_encode s fe w faces))) = faces.
+Proof.
+  intros Hd Hw Hfull. apply c01_wf_facesb_ok in Hw.
+  repeat (apply andb_true_iff in Hd; destruct Hd as [Hd ?]).
+  transitivity (c01_faces_of (c01_std w faces)); [|apply (c01_faces_of_std n); exact Hw]. f_equal. destruct with_fill.
+  - apply (c01_topo_faces std s fe n); try assumption; try lia. apply c01_fill_okb_ok; assumption.
+  - apply (c01_topo_faces_nofill std s fe n). specialize (Hfull eq_refl). rewrite forallb_forall in Hfull.
+    unfold c01_wf_faces in Hw. rewrite Forall_forall in *. intros f Hf. destruct (Hw f Hf) as [Hwf _].
+    split; [exact Hwf|]. apply Nat.eqb_eq. apply Hfull. exact Hf.
+Qed.
+
+(* MPAS primal: zero padding and repeated-last-index padding *)
+Theorem c01_mpas_roundtrip zeros n w faces : c01_wf_facesb n w faces = true ->
+  c01_faces_of (c01_mpas_padded (c01_mpas_encode zeros w faces) (map (fun f => Z.of_nat (length f)) faces)) = faces.
+Proof.
+  intros Hw. apply c01_wf_facesb_ok in Hw.
+  transitivity (c01_faces_of (c01_std w faces)); [|apply (c01_faces_of_std n); exact Hw]. f_equal.
+  set (J := fun f : list Z => repeat (if zeros then 0 else last f 0 + 1) (w - length f)).
+  pose proof (c01_mpas_primal_faces n w (map (fun f => (f, J f)) faces)) as E.
+  rewrite !map_map in E. simpl in E. rewrite map_id in E. apply E.
+  apply Forall_map. unfold c01_wf_faces in Hw. eapply Forall_impl; [|exact Hw]. simpl. intros f [Hf Hl].
+  split; [exact Hf|]. unfold J. rewrite repeat_length. lia.
+Qed.
+
+(* ESMF: start_index 0 / 1 / absent, -1 padding, numElementConn = corner counts *)
+Theorem c01_esmf_roundtrip attr s n w faces :
+  (n <=? c01_BOUND) && ((s =? 0) || (s =? 1)) &&
+  match attr with Some a => a =? s | None => s =? 1 end = true ->
+  c01_wf_facesb n w faces = true ->
+  c01_faces_of (c01_esmf attr (c01_esmf_encode s w faces) (map (fun f => Z.of_nat (length f)) faces)) = faces.
+Proof.
+  intros Hd Hw. apply c01_wf_facesb_ok in Hw.
+  repeat (apply andb_true_iff in Hd; destruct Hd as [Hd ?]).
+  transitivity (c01_faces_of (c01_std w faces)); [|apply (c01_faces_of_std n); exact Hw]. f_equal.
+  set (J := fun f : list Z => repeat (EInt (-1)) (w - length f)).
+  pose proof (c01_esmf_faces n w attr s (map (fun f => (f, J f)) faces)) as E.
+  rewrite !map_map in E. simpl in E. rewrite map_id in E. apply E; try lia.
+  - destruct attr as [a|]; [left; f_equal; lia|right; split; [reflexivity|lia]].
+  - apply Forall_map. unfold c01_wf_faces in Hw. eapply Forall_impl; [|exact Hw]. simpl. intros f [Hf Hl].
+    split; [exact Hf|]. unfold J. rewrite repeat_length. lia.
+Qed.
+
+(* Exodus: any list of element blocks (width, faces), widest width w *)
+Theorem c01_exodus_roundtrip n w (blocks : list (nat * list (list Z))) :
+  forallb (fun b => (fst b <=? w)%nat && c01_wf_facesb n (fst b) (snd b)) blocks = true ->
+  c01_faces_of (c01_exodus w (map (fun b => c01_exo_enc_block (fst b) (snd b)) blocks)) = concat (map snd blocks).
+Proof.
+  intros H. rewrite forallb_forall in H.
+  assert (Hb : Forall (fun b => (fst b <= w)%nat /\ c01_wf_faces n (fst b) (snd b)) blocks).
+  { apply Forall_forall. intros b Hin. specialize (H b Hin). apply andb_true_iff in H. destruct H as [H1 H2].
+    split; [apply Nat.leb_le; exact H1|apply c01_wf_facesb_ok; exact H2]. }
+  rewrite (c01_exodus_faces n w blocks Hb). apply (c01_faces_of_std n w).
+  unfold c01_wf_faces. apply Forall_forall. intros f Hf. apply in_concat in Hf. destruct Hf as (fs & Hfs & Hf).
+  apply in_map_iff in Hfs. destruct Hfs as (b & <- & Hbin). rewrite Forall_forall in Hb. destruct (Hb b Hbin) as [Hle Hwf].
+  unfold c01_wf_faces in Hwf. rewrite Forall_forall in Hwf. destruct (Hwf f Hf). split; [assumption|lia].
+Qed.
+
+(* ICON: k corners per cell, tables stored transposed and one-based *)
+Theorem c01_icon_roundtrip k n rows :
+  forallb (fun r => (length r =? k)%nat) rows && c01_wf_facesb n k rows = true ->
+  c01_faces_of (c01_icon (length rows) (c01_icon_encode k rows)) = rows.
+Proof.
+  intros H. apply andb_true_iff in H. destruct H as [Hl Hw]. apply c01_wf_facesb_ok in Hw.
+  transitivity (c01_faces_of (c01_std k rows)); [|apply (c01_faces_of_std n); exact Hw]. f_equal. apply (c01_icon_faces k n).
+  rewrite forallb_forall in Hl. unfold c01_wf_faces in Hw. rewrite Forall_forall in *. intros r Hr.
+  destruct (Hw r Hr). split; [apply Nat.eqb_eq; apply Hl; exact Hr|assumption].
+Qed.
+
+(* SCRIP: cells padded by repeating their last corner (generator as a definition) *)
+Theorem c01_scrip_roundtrip w (faces : list (list (Z * Z))) :
+  Forall (fun f => f <> [] /\ (length f <= w)%nat /\ NoDup f) faces ->
+  c01_faces_pos (FILL, FILL) (fst (c01_scrip (c01_scrip_encode w faces) w)) (snd (c01_scrip (c01_scrip_encode w faces) w)) = faces.
+Proof. intros H. apply (proj1 (c01_scrip_faces w faces H)). Qed.
+
+(* UGRID dimension renaming: the edge dimension follows edge_lon only; a source that declares edge_dimension
+   and supplies edge_node_connectivity but no edge coordinates keeps its own edge dimension name (known finding
+   C01-ugrid-edge-dim: Grid.n_edge then raises) *)
+Theorem c01_ugrid_dims_spec a b c e : c01_ugrid_dims a b c e = (true, true, e).
+Proof. reflexivity. Qed.
+
+Theorem c01_ugrid_edge_dim_refuted :
+  exists attr_edge has_edge_lon, attr_edge = true /\ snd (c01_ugrid_dims true true attr_edge has_edge_lon) <> true.
+Proof. exists true, false. split; [reflexivity|]. vm_compute. discriminate. Qed.
+
+Example c01_roundtrip_nonvacuous :
+  c01_wf_facesb 5 4 c01_ex_faces_def = true
+  /\ c01_ugrid_dialect_okb {| ud_std_dtype := false; ud_fill := Some (EInt (-1)); ud_start := Some 1 |} 1 (EInt (-1)) 5 c01_ex_faces_def = true
+  /\ c01_ugrid_dialect_okb {| ud_std_dtype := true; ud_fill := Some (EInt FILL); ud_start := None |} 0 (EInt FILL) 5 c01_ex_faces_def = true
+  /\ c01_ugrid_dialect_okb {| ud_std_dtype := false; ud_fill := None; ud_start := Some 0 |} 0 ENan 5 c01_ex_faces_def = true
+  /\ c01_faces_of (c01_ugrid_conn {| ud_std_dtype := false; ud_fill := None; ud_start := Some 0 |} (c01_encode 0 ENan 4 c01_ex_faces_def)) = c01_ex_faces_def
+  /\ c01_faces_of (c01_mpas_padded (c01_mpas_encode false 4 c01_ex_faces_def) [4; 3]) = c01_ex_faces_def
+  /\ c01_mpas_encode false 4 c01_ex_faces_def = [[1; 2; 3; 4]; [2; 5; 3; 3]]
+  /\ c01_faces_of (c01_esmf (Some 0) (c01_esmf_encode 0 4 c01_ex_faces_def) [4; 3]) = c01_ex_faces_def
+  /\ c01_faces_of (c01_exodus 4 [c01_exo_enc_block 3 [[1; 4; 2]]; c01_exo_enc_block 4 [[0; 1; 2; 3]]]) = [[1; 4; 2]; [0; 1; 2; 3]]
+  /\ c01_faces_of (c01_icon 2 (c01_icon_encode 3 [[0; 1; 2]; [2; 1; 3]])) = [[0; 1; 2]; [2; 1; 3]]
+  /\ c01_scrip_encode 4 [[(5, 1); (2, 2); (9, 0)]] = [[(5, 1); (2, 2); (9, 0); (9, 0)]].
+Proof. vm_compute. repeat split. Qed.
 
 (* ------------------------------------------------------------------------------------------- *)
 (* non-vacuity: concrete inputs meeting the hypotheses of the theorems above                      *)
